@@ -49,7 +49,7 @@ RULE = ("a case is one handshake: server side = value class per header dimension
         "origin, origin override, subprotocol offer, selection policy, extension offer, compression); client side = "
         "(offered subprotocols, compression on/off) x mutated response (status, upgrade, connection, accept, protocol, "
         "extensions); a case is non-trivial if at least one dimension is off-nominal; distinct by the value tuple")
-FLOORS = {"quick": 2500, "thorough": 60000}
+FLOORS = {"quick": 2000, "thorough": 60000}
 ASSUMPTIONS = ["labels A/R/U are fixed by the generator from RFC 6455 section 4 restricted to what the statement pins",
                "virtual loop over AF_UNIX"]
 REQUIRED_COUNTERS = ["oracle_evals", "server_must_accept", "server_must_reject", "server_101_checked",
@@ -279,7 +279,7 @@ def gen_client_random(rng):
 
 def shards(tier, seed):
     out = []
-    nr = {"quick": 250, "thorough": 9000}[tier]
+    nr = {"quick": 150, "thorough": 9000}[tier]
     for j in range(8):
         out.append({"kind": "server", "j": j, "of": 8, "nrand": nr})
     for j in range(4):
